@@ -212,8 +212,9 @@ def run_case(kind, params, ctx):
                 ctx.count("argforms.refused_with_TypeError")     # refusing another container type is fine; a different answer is not
                 continue
             except Exception as e:
-                if name in ("positional", "keyword-aux"):
-                    ctx.violation(f"sign/raises/arg-form/{name}", f"{type(e).__name__}: {e}")
+                # a deliberate refusal of a container type is a TypeError; anything else (AttributeError, IndexError ..) on an input whose
+                # CONTENT is a valid 32-byte key / aux / message is a crash on valid input
+                ctx.violation(f"sign/raises/arg-form/{name}", f"{type(e).__name__}: {e}")
                 continue
             if got != exp:
                 ctx.violation(f"sign/differs-from-bip340/arg-form/{name}", f"sign(d={d:#x}, msg={msg.hex()[:40]}, aux={aux.hex()}) called as {name} = {got.hex()}, reference {exp.hex()}")
